@@ -106,7 +106,7 @@ FAMILY = {
 }
 DATEISH = {"date", "datetime", "np.dt64"}   # (families; np.dt64M is of family np.dt64)
 EXPLICIT = {
-    "int": [int, float, object, "int32"],
+    "int": [int, float, object, "int32", "uint16"],
     "float": [float, object],
     "bool": [bool, object],
     "str": [str, object],
@@ -175,6 +175,9 @@ def expected_homogeneous(fam, has_missing, dtype):
         return None
     if dtype is int:
         return ("float64", "nan") if has_missing else ("int64", None)
+    if dtype == "uint16":
+        # an unsigned integer type is an integer type: NaN in some float when a missing value has to be held
+        return (None, "nan") if has_missing else ("uint16", None)
     if dtype == "int32":
         # widened to some float when a missing value has to be held: which one is not stated, but tolist() must
         # give the original values back (checked below), so the float must be wide enough for every int32
@@ -524,7 +527,7 @@ def seq_cases(names):
     if hm is not None:
         fam, has_missing = hm
         for d in EXPLICIT.get(fam, []):
-            if d == "int32" and "big" in names:
+            if d in ("int32", "uint16") and ("big" in names or (d == "uint16" and "i24" in names)):
                 continue  # does not fit the requested type
             yield {"names": list(names), "dtype": dtype_arg(d)}
     elif names and all(x in MISSING for x in names):
